@@ -215,6 +215,7 @@ namespace
                 case 'p': (void)sched.pop_tag(o.tag); break;
                 case 'r': sched.reset(); break;
                 case 'o': emit = Int{o.n}; break;
+                case 'x': throw std::runtime_error("boom-eval-script");   // after the preceding ops took effect
                 default: break;
             }
         }
@@ -249,8 +250,16 @@ namespace
             const auto i = static_cast<std::size_t>(k.get());
             const std::string before = sched_q(sched);
             std::optional<Int> emit;
-            if (i < sc.size()) { run_script_ops(sc[i], sched, emit); }
-            k.set(static_cast<Int>(i + 1));
+            k.set(static_cast<Int>(i + 1));     // the script step is consumed even if it throws
+            try
+            {
+                if (i < sc.size()) { run_script_ops(sc[i], sched, emit); }
+            }
+            catch (...)
+            {
+                logf("E " + lbl_of(node) + " " + std::to_string(us(sched.now())) + " k=" + std::to_string(i) + " " + before + " THROW");
+                throw;
+            }
             if (emit.has_value()) { out.set(*emit); }
             logf("E " + lbl_of(node) + " " + std::to_string(us(sched.now())) + " k=" + std::to_string(i) + " " + before +
                  " " + sched_q(sched));
@@ -272,8 +281,16 @@ namespace
             const auto i = static_cast<std::size_t>(k.get());
             const std::string before = sched_q(sched);
             std::optional<Int> emit;
-            if (i < sc.size()) { run_script_ops(sc[i], sched, emit); }
-            k.set(static_cast<Int>(i + 1));
+            k.set(static_cast<Int>(i + 1));     // the script step is consumed even if it throws
+            try
+            {
+                if (i < sc.size()) { run_script_ops(sc[i], sched, emit); }
+            }
+            catch (...)
+            {
+                logf("E " + lbl_of(node) + " " + std::to_string(us(sched.now())) + " k=" + std::to_string(i) + " " + before + " THROW");
+                throw;
+            }
             if (emit.has_value()) { out.set(*emit); }
             logf("E " + lbl_of(node) + " " + std::to_string(us(sched.now())) + " k=" + std::to_string(i) + " " + before +
                  " " + sched_q(sched) + " a=" + in_desc(a));
